@@ -47,8 +47,11 @@ m('sender-rotates-to-tail (revert fix)', ['C05', 'C01'], 'rsocket/rsocket_base.p
   "                self._requeue_partially_sent_frame(self._send_queue.get_nowait())  # cycle to next frame source in queue",
   "                self._send_queue.put_nowait(self._send_queue.get_nowait())  # cycle to next frame source in queue")
 m('priority-insert-for-every-frame-of-stream0', ['C05'], 'rsocket/rsocket_base.py',
-  "    def send_frame(self, frame: Frame):\n        self._send_queue.put_nowait(frame)",
-  "    def send_frame(self, frame: Frame):\n        if frame.stream_id == 0 and not self._send_queue.empty():\n            return self.send_priority_frame(frame)\n        self._send_queue.put_nowait(frame)")
+  "        if held_frames is not None:\n            held_frames.append(frame)\n        else:\n            self._send_queue.put_nowait(frame)",
+  "        if held_frames is not None:\n            held_frames.append(frame)\n        elif frame.stream_id == 0 and not self._send_queue.empty():\n            return self.send_priority_frame(frame)\n        else:\n            self._send_queue.put_nowait(frame)")
+m('lease-retained-request-overtaken (revert fix)', ['C08', 'C01'], 'rsocket/rsocket_base.py',
+  "        held_frames = self._frames_behind_queued_request.get(frame.stream_id)\n\n        if held_frames is not None:",
+  "        held_frames = None\n\n        if held_frames is not None:")
 m('dispatch-wrong-stream-for-fragmented', ['C01'], 'rsocket/frame_fragment_cache.py',
   "                self._frames_by_stream_id.pop(frame.stream_id)\n            return frame",
   "                self._frames_by_stream_id.pop(frame.stream_id)\n                if len(self._frames_by_stream_id) == 1:\n                    frame.stream_id = next(iter(self._frames_by_stream_id))\n            return frame")
